@@ -33,6 +33,10 @@ struct Model {
                 return;
             case SET:
             case SETMOVE:
+                if (o.r2 == 1) {  // the value's copy constructor threw inside the call: no effect
+                    out.push_back(n);
+                    return;
+                }
                 if (s.phase[o.a] == 1) {
                     n.phase[o.a] = 2;
                     n.val[o.a] = static_cast<uint8_t>(o.b);
@@ -66,10 +70,34 @@ struct Model {
 
 struct POp {
     int op, key, val;
+    bool inject = false;  // SET (copy overload): the value's copy constructor throws inside the call
 };
-using DO = DelayedObjects<std::string>;
+// the delayed value type: heap-owning, and its copy constructor can be made to throw (user code running inside the container)
+struct VX {
+    std::string s;
+    VX() = default;
+    explicit VX(std::string t): s(std::move(t)) {}
+    VX(const VX& o)
+    {
+        vrf::maybe_throw(1);
+        s = o.s;
+    }
+    VX(VX&& o) noexcept: s(std::move(o.s)) {}
+    VX& operator=(const VX& o)
+    {
+        vrf::maybe_throw(2);
+        s = o.s;
+        return *this;
+    }
+    VX& operator=(VX&& o) noexcept
+    {
+        s = std::move(o.s);
+        return *this;
+    }
+};
+using DO = DelayedObjects<VX>;
 
-static void run_thread(DO& d, int tid, const std::vector<POp>& script, std::vector<LinOp>& hist, std::future<std::string>* futs, std::atomic<int>* have_fut,
+static void run_thread(DO& d, int tid, const std::vector<POp>& script, std::vector<LinOp>& hist, std::future<VX>* futs, std::atomic<int>* have_fut,
                        std::atomic<uint64_t>& consumer_got)
 {
     static const int ikeys[] = {11, 12};
@@ -89,16 +117,32 @@ static void run_thread(DO& d, int tid, const std::vector<POp>& script, std::vect
                     have_fut[p.key].store(1, std::memory_order_release);
                     break;
                 case SET: {
-                    std::string v = val_str(p.val);
-                    if (isint) d.setDelayedValue(ikeys[p.key], v);
-                    else d.setDelayedValue(std::string(skeys[p.key - 2]), v);
+                    VX v(val_str(p.val));
+                    // not in TSan builds: promise::set_value runs the copy inside call_once, and TSan's pthread_once interceptor does
+                    // not survive an exception thrown through it (the once flag stays "in progress": the next set_value on that
+                    // promise - the container's destructor - spins forever). A tool artefact, observed on the unchanged tree.
+                    const bool inject = p.inject && !VRF_TSAN;
+                    if (inject) vrf::fault_arm(1u << 1, 1, (p.val % 2) == 1);
+                    try {
+                        if (isint) d.setDelayedValue(ikeys[p.key], v);
+                        else d.setDelayedValue(std::string(skeys[p.key - 2]), v);
+                    }
+                    catch (const vrf::Injected&) {
+                        o.r2 = 1;  // the copy threw: the call must have had no effect (the key stays pending)
+                    }
+                    if (inject) vrf::fault_disarm();
+                    if (vrf::held_count() != 0) vrf::violation("oracle:lock_not_released_after_throw", "{\"op\":\"setDelayedValue\"}");
                     break;
                 }
                 case SETMOVE:
-                    if (isint) d.setDelayedValue(ikeys[p.key], val_str(p.val));
-                    else d.setDelayedValue(std::string(skeys[p.key - 2]), val_str(p.val));
+                    if (isint) d.setDelayedValue(ikeys[p.key], VX(val_str(p.val)));
+                    else d.setDelayedValue(std::string(skeys[p.key - 2]), VX(val_str(p.val)));
                     break;
-                case FULFILL: d.fulfillAllPromises(val_str(p.val)); break;
+                case FULFILL: {
+                    VX v(val_str(p.val));
+                    d.fulfillAllPromises(v);
+                    break;
+                }
                 case FINISH:
                     if (isint) d.finishedWithValue(ikeys[p.key]);
                     else d.finishedWithValue(std::string(skeys[p.key - 2]));
@@ -158,6 +202,7 @@ int main(int argc, char** argv)
                 } else if (k < 40) {
                     p.op = rng.chance(50) ? SET : SETMOVE;
                     p.val = next_val++;
+                    p.inject = (p.op == SET) && rng.chance(15);
                 } else if (k < 50) {
                     p.op = FULFILL;
                     p.val = next_val++;
@@ -171,7 +216,7 @@ int main(int argc, char** argv)
         }
         auto pj_ops = [](const std::vector<POp>& v) {
             return vrf::jarr(v.begin(), v.end(), [](const POp& p) {
-                return std::string("{\"op\":\"") + OPN[p.op] + "\",\"key\":" + std::to_string(p.key) + ",\"val\":" + std::to_string(p.val) + "}";
+                return std::string("{\"op\":\"") + OPN[p.op] + "\",\"key\":" + std::to_string(p.key) + ",\"val\":" + std::to_string(p.val) + (p.inject ? ",\"copy_throws\":1" : "") + "}";
             });
         };
         std::string pj = "{\"setup\":" + pj_ops(setup) + ",\"threads\":[";
@@ -179,7 +224,7 @@ int main(int argc, char** argv)
         pj += "]}";
         R.program(pj);
         DO* d = new DO();
-        std::future<std::string> futs[NKEYS];
+        std::future<VX> futs[NKEYS];
         std::atomic<int> have_fut[NKEYS];
         for (auto& h : have_fut) h.store(0);
         std::atomic<uint64_t> consumer_got{0};
@@ -217,7 +262,7 @@ int main(int argc, char** argv)
             o.a = k;
             o.call = vrf::now();
             try {
-                std::string v = futs[k].get();
+                std::string v = futs[k].get().s;
                 o.r = val_id(v);
                 if (v != val_str(o.r)) vrf::violation("oracle:future_value_corrupt", vrf::jstr(v));
             }
